@@ -622,6 +622,22 @@ impl<T: Config> UdpProtocol<T> {
             return;
         }
 
+        // Until the handshake has completed we do not know the peer's magic yet, so the filter
+        // above cannot tell its packets from those of another (e.g. earlier) session using the same
+        // address. Only handshake messages are meaningful in that phase; anything else - the peer's
+        // first inputs included, which it will retransmit - is dropped rather than trusted.
+        if matches!(
+            self.state,
+            ProtocolState::Initializing | ProtocolState::Synchronizing
+        ) && !matches!(
+                msg.body,
+                MessageBody::SyncRequest(_) | MessageBody::SyncReply(_)
+            )
+        {
+            trace!("Received non-handshake message before synchronization; ignoring");
+            return;
+        }
+
         // update time when we last received packages
         self.last_recv_time = Instant::now();
 
